@@ -3,7 +3,7 @@ META = dict(
     level="other",
     claim="Mechanisms behind 'a located diagnostic, never a crash': error_at/error_tok/verror_at print the file name and the 1-based physical line of the offending location, excerpt exactly that source line, never scan outside the buffer, and end with a failure exit (every 8-byte buffer over {a,newline}, every location); the size-directed code-generator helpers cannot reach unreachable() for the sizes their callers use. The crash-free behaviour of the functions under contract elsewhere is checked by CBMC's generated pointer/bounds/division checks in those properties' harnesses (C01-C20), and a crashed or signalled front end makes the driver fail (C14.1).",
     note="Bounded buffers. This does NOT decide the property's universal claim over all byte strings (termination and acceptance of every valid program are outside function-by-function contracts); it decides the located-diagnostic mechanism and lists, in DESIGN.md I.5, the crash defects that the other harnesses exposed and that were repaired (SIGFPE in constant division, SIGSEGV on unnamed bit-fields, internal error on long double static initialisers, assembler rejection of wide bit-field masks).",
-    functions=["tokenize.c:error_at", "tokenize.c:error_tok", "tokenize.c:verror_at", "codegen.c:reg_ax", "codegen.c:reg_dx", "codegen.c:store_fp", "codegen.c:store_gp", "parse.c:array_designator", "hashmap.c:get_or_insert_entry", "hashmap.c:hashmap_delete2", "main.c:run_subprocess"],
+    functions=["type.c:add_type", "parse.c:eval2", "parse.c:eval3", "tokenize.c:error_at", "tokenize.c:error_tok", "tokenize.c:verror_at", "codegen.c:reg_ax", "codegen.c:reg_dx", "codegen.c:store_fp", "codegen.c:store_gp", "parse.c:array_designator", "hashmap.c:get_or_insert_entry", "hashmap.c:hashmap_delete2", "main.c:run_subprocess"],
     trusted_base=["CBMC 6.11"],
     assumptions=["stdio is a ghost writer", "display_width is replaced by the byte count (its own loop is not under contract)"],
     explanation="bounded harnesses on the diagnostic functions; safety checks of other properties' harnesses are counted there",
@@ -24,5 +24,10 @@ def jobs(tier):
                 redirect={"const_expr": "stub_const_expr"}, cbmc_flags=["--paths lifo"], timeout=300, replay=None, unwind=8, bounded="token shape [a]", sample="array designator [a] with any 64-bit a"),
             Job(name="arrdesig-range", src="../C05/arrdesig.c", group="C13.1 validity checks precede use", defs={"RANGE": "1"}, mode="plain", cut=["error", "error_tok", "error_at", "verror_at", "warn_tok"], units=["type.c"],
                 redirect={"const_expr": "stub_const_expr"}, cbmc_flags=["--paths lifo"], timeout=300, replay=None, unwind=8, bounded="token shape [a ... b]", sample="array designator range [a ... b] with any 64-bit a, b"),
+            *[Job(name=f"typediag-{k}{'-void' if v else ''}", src="typediag.c", group="C13.3 diagnostics at a token", defs=dict({"KIND": k}, **({"VOIDP": "1"} if v else {})), mode="plain", cut=["error", "error_at", "verror_at", "warn_tok"], units=[],
+                  timeout=300, replay=None, unwind=6, bounded="one ill-typed node per job", sample=f"add_type on an ill-typed {k} node") for (k, v) in (("ND_ASSIGN", 0), ("ND_DEREF", 0), ("ND_DEREF", 1), ("ND_CAS", 0), ("ND_CAS", 1), ("ND_EXCH", 0))],
+            *[Job(name=f"fold-{k}-by-minus-one", src="../C07/eval2.c", group="C13.2 the folder does not trap", defs={"KIND": k, "RHS_M1": "1", "FIX_TN": "7", "TRAP_CASE": "1"},
+                  units=["type.c"], mode="dfcc", enforce="eval2", rec=True, replace=["add_type"], cut=["error", "error_tok", "error_at", "warn_tok"], timeout=180, replay=None,
+                  no_checks=["undefined-shift"], sample=f"eval2 on INT64_MIN {k} -1") for k in ("ND_DIV", "ND_MOD")],
             Job(name="unreachable-sizes", src="unreach.c", group="C13.2 unreachable()", mode="plain", cut=["error_tok", "error_at"], units=["type.c"], timeout=300, replay=None, unwind=10, unwindset=["strcmp.0:40"],
                 bounded="sizes 1,2,4,8", sample="reg_ax/reg_dx/store_fp/store_gp over the power-of-two sizes")]
